@@ -27,6 +27,7 @@ RULE = (
     ' Also: back-filled samples below everything written with readers that looked at the channel before, unsorted batches in one call, numpy integer index arguments, integer-valued float / numpy parameters, prefixes such as tmp102 / duty50%% / x.y, dictionaries nested three levels, a young unreadable file (another process writing) during the queries, directed digit-count changes inside inner files of a multi-file read.'
 )
 RULE += ' Since rounds 7-8: the in-progress file of another host with its clock ahead, read-only archives, callers that empty what they passed / received, single-index forward fill, fill with columns.'
+RULE += ' Round 9: directed range reads that reach into the period of a file another process has just begun.'
 ASSUMPTIONS = ["overlay build of /repo; h5py 3.16 from /venv",
                "values are limited to what h5py can store (object arrays of str for lists of strings)"]
 FLOORS = {"nontrivial": 0.4}
@@ -309,6 +310,10 @@ def directed_cases(tier):
         queries3 = [{"q": "read", "a": ks[0], "b": ks[-1]}, {"q": "read", "a": 0, "b": ks[-1] + 10}, {"q": "ffill", "a": ks[2], "b": ks[-1], "method": "ffill"},
                     {"q": "read", "a": ks[1], "b": ks[4]}, {"q": "bounds", "a": 0, "b": 0}]
         out.append({"p": p3, "specs": specs, "steps": steps3, "queries": queries3})
+        # ... the same channel with range reads that reach into the period of the file another process has just begun
+        out.append({"p": p3, "specs": specs, "steps": steps3, "junk_skew": 0, "readonly": False, "queries": [
+            {"q": "read", "a": ks[0], "b": ks[-1] + 2 * C_}, {"q": "ffill", "a": ks[-1] + C_, "b": ks[-1] + 2 * C_, "method": "ffill"},
+            {"q": "single", "a": (ks[-1] // C_ + 1) * C_, "b": 0}, {"q": "latest", "a": 0, "b": 0}, {"q": "read", "a": ks[0], "b": ks[-1]}]})
     return out
 
 
